@@ -601,7 +601,16 @@ def recode(fn, ovld, recurse_sym, call_next_sym, newname):
             " to force a refresh, or remove __pycache__ altogether. If that does not work,"
             " avoid calling recurse()/call_next()"
         )
-    tree = ast.parse(textwrap.dedent(src))
+    lineno_offset = fn.__code__.co_firstlineno - 1
+    if src[:1] in " \t":
+        # An indented definition is parsed inside a block. Removing the
+        # indentation instead would also change the continuation lines of
+        # multi-line string literals.
+        tree = ast.parse("if True:\n" + src)
+        tree = ast.Module(body=tree.body[0].body, type_ignores=[])
+        lineno_offset -= 1
+    else:
+        tree = ast.parse(src)
     new = NameConverter(
         anal=ovld.argument_analysis,
         recurse_sym=recurse_sym,
@@ -614,7 +623,7 @@ def recode(fn, ovld, recurse_sym, call_next_sym, newname):
     if fn.__closure__:
         new = closure_wrap(new.body[0], "irrelevant", fn.__code__.co_freevars)
     ast.fix_missing_locations(new)
-    ast.increment_lineno(new, fn.__code__.co_firstlineno - 1)
+    ast.increment_lineno(new, lineno_offset)
     res = compile(new, mode="exec", filename=fn.__code__.co_filename)
     if fn.__closure__:
         res = [x for x in res.co_consts if isinstance(x, CodeType)][0]
